@@ -89,6 +89,9 @@ def walk(args):
         if seed % 3 == 2 and tid >= 0:
             out += restart_walk(tid, h, w, b, seed, steps, rng)
             continue
+        if tid == -3:
+            out += initial_blocks_case(h, w, b, seed)
+            continue
         bld = mk_builder(h, w, b, unset=seed % 16)
         try:
             cur = _initial(bld, limit=4 if tid == -2 else 10)
@@ -122,6 +125,33 @@ def walk(args):
             recs.append({"t": tid, "h": h, "w": w, "bnd": b, "before": [], "updates": [], "status": "exc", "exc": type(e).__name__})
         out += recs
     return out
+
+
+def initial_blocks_case(h, w, b, seed):
+    """initial() of a builder that was given initial_blocks which do not meet the bounds (too many / too few blocks,
+    blocks too small / too large): what it hands out must be inside the bounds (allow_unmet_constraints_first is off),
+    and so must every value one update further"""
+    form = b["_ib"]
+    b = {k: v for k, v in b.items() if k != "_ib"}
+    ib = {"singles": [[(y, x)] for y in range(h) for x in range(w)],
+          "rows": [[(y, x) for x in range(w)] for y in range(h)],
+          "cols": [[(y, x) for y in range(h)] for x in range(w)],
+          "whole": [[(y, x) for y in range(h) for x in range(w)]],
+          "dominoes": [[(y, x), (y, x + 1)] for y in range(h) for x in range(0, w - 1, 2)] + [[(y, w - 1)] for y in range(h) if w % 2]}[form]
+    base = {"t": -3, "h": h, "w": w, "bnd": b, "status": "ok", "exc": ""}
+    try:
+        bld = mk_builder(h, w, b, unset=seed % 16, initial_blocks=ib)
+        cur = _initial(bld, limit=5)
+    except Exception as e:  # noqa
+        return [dict(base, before=[], updates=[], status="exc", exc="initial:" + type(e).__name__)]
+    snap = copy.deepcopy(cur)
+    rec = dict(base, before=to_cells(cur, w), updates=[])
+    try:
+        for upd in bld.candidates(cur):
+            rec["updates"].append({"after": to_cells(bld.copy_with_update(cur, upd), w), "before_unchanged": cur == snap})
+    except Exception as e:  # noqa
+        return [rec, dict(base, before=[], updates=[], status="exc", exc=type(e).__name__)]
+    return [rec]
 
 
 def restart_walk(tid, h, w, b, seed, steps, rng):
@@ -222,6 +252,16 @@ def run(tier, seed):
                                    (2, 4, {"minB": 2, "maxB": 2, "minS": 4, "maxS": 4}),
                                    (3, 4, {"minB": 4, "maxB": 4, "minS": 3, "maxS": 3})] * (2 if tier == "quick" else 8)):
         wj.append((-2, h, w, b, seed * 7919 + 9000 + i, 3))
+    # initial_blocks that do not meet the bounds, on small boards, every form x a sweep of bounds
+    k = 0
+    for (h, w) in [(2, 2), (2, 3), (3, 3), (1, 4)] + ([] if tier == "quick" else [(2, 5), (4, 4), (3, 4)]):
+        n = h * w
+        for form in ("singles", "rows", "cols", "whole", "dominoes"):
+            for minB, maxB, minS, maxS in [(1, 1, 1, n), (1, 2, 1, n), (1, 3, 1, n), (2, 2, 1, n), (2, 3, 1, n - 1), (1, n, 2, n),
+                                           (2, n, 1, max(1, n // 2)), (n, n, 1, 1), (1, n - 1, 1, n), (2, n, 2, n)]:
+                if minB <= maxB and minS <= maxS and minB * minS <= n <= maxB * maxS:
+                    wj.append((-3, h, w, {"minB": minB, "maxB": maxB, "minS": minS, "maxS": maxS, "_ib": form}, seed * 7919 + 20000 + k, 1))
+                    k += 1
     with RobustPool(NPROC) as pool:
         wouts = pool.map(walk, chunks(wj, NPROC * 2))
     wrecs = [x for o in wouts for x in o]
